@@ -1,6 +1,6 @@
 (* C16 — property theorems.  Only statements, [exact lemma] and Print Assumptions. *)
 From Coq Require Import ZArith List.
-From FV Require Import C16.Model C16.Proofs C16.Proofs2.
+From FV Require Import C16.Model C16.Proofs C16.Proofs2 C16.Proofs3.
 Import ListNotations.
 Open Scope Z_scope.
 
@@ -88,6 +88,16 @@ Theorem promote_preserves : forall (V A : Type) (l : lookup V A),
   Forall (fun s => exists inner, s = SExt (lk_type l) inner /\ In inner (lk_subs l)) (lk_subs (promote l)).
 Proof. exact @promote_preserves_lemma. Qed.
 
+(* CoverageTable::iter of a builder-made table is exactly the sorted set, and the table satisfies the
+   assumptions of split_m2b_preserves / split_pp2_preserves (well-formed, iterates in increasing order,
+   coverage index = position), in either format *)
+Theorem built_coverage_iterates_the_set : forall (G : list Z) (f : bool), cov_iter (cov_build_fmt f G) = sort_dedup G.
+Proof. exact cov_iter_build_fmt. Qed.
+Theorem built_coverage_meets_split_assumptions : forall (G : list Z) (f : bool), Forall u16 G ->
+  let c := cov_build_fmt f G in
+  cov_wf c /\ ssorted (cov_iter c) /\ Forall u16 (cov_iter c) /\ (forall g, cov_sem c g = index_of g (cov_iter c)).
+Proof. exact built_cov_iter_ok. Qed.
+
 Print Assumptions coverage_get_spec.
 Print Assumptions coverage_get_spec_chosen_format.
 Print Assumptions coverage_format_choice_irrelevant.
@@ -105,3 +115,5 @@ Print Assumptions split_pp1_preserves.
 Print Assumptions split_pp2_preserves.
 Print Assumptions split_m2b_preserves.
 Print Assumptions promote_preserves.
+Print Assumptions built_coverage_iterates_the_set.
+Print Assumptions built_coverage_meets_split_assumptions.
